@@ -191,8 +191,11 @@ def SLOPE(*yx):
     if len(ys) != len(xs) or len(ys) == 0 or len(xs) == 0:
         return error.DIV_ZERO
 
-    ys = list(ys)
-    xs = list(xs)
+    # SLOPE(known_ys, known_xs): each half may be a range (rows of cells) or an array
+    ys = utils.flatten(list(ys))
+    xs = utils.flatten(list(xs))
+    if len(ys) != len(xs):
+        return error.NOT_AVAILABLE
 
     # deviations from the (exactly computed) means: the textbook n*sum(xy)-sum(x)*sum(y)
     # form cancels catastrophically when the values are large compared with their spread
